@@ -79,9 +79,19 @@ pub fn run(tier: Tier, seed: u64) -> i32 {
             }
             _ => ("random", rand_scalar(&mut rng), rand_scalar(&mut rng)),
         };
+        // wiring: two distinct witnesses, the same witness on both sides, or a
+        // circuit constant register (0 = ZERO, 1 = ONE) as one operand
+        let (ra, rb, a, b, wname) = match (2 * k + p as u64) % 6 {
+            0 => (2usize, 2usize, a, a, "same-witness"),
+            1 => (1, 3, BlsScalar::one(), b, "constant-one-left"),
+            2 => (2, 0, a, BlsScalar::zero(), "constant-zero-right"),
+            _ => (2, 3, a, b, "distinct-witnesses"),
+        };
+        ev.set_insert("wirings", wname);
+        ev.bucket(&format!("wiring.{wname}"));
         let expected = bitop(&a, &b, nb, xor);
         let name = if xor { "append_logic_xor" } else { "append_logic_and" };
-        let op = if xor { Op::LogicXor(p, 2, 3) } else { Op::LogicAnd(p, 2, 3) };
+        let op = if xor { Op::LogicXor(p, ra, rb) } else { Op::LogicAnd(p, ra, rb) };
         let case = Case {
             component: format!("{name}<{p}>"),
             prog: prog(op),
@@ -90,7 +100,7 @@ pub fn run(tier: Tier, seed: u64) -> i32 {
             returned: vec![4],
             relation: true,
             expected: vec![expected],
-            note: format!("values={vname}"),
+            note: format!("values={vname} wiring={wname}"),
         };
         ev.set_insert("pair_counts", format!("{}:{p}", if xor { "xor" } else { "and" }));
         let Some(h) = lab.honest(&case) else { return };
@@ -133,6 +143,13 @@ pub fn run(tier: Tier, seed: u64) -> i32 {
                 f.insert(high_a, hi.to_scalar());
             }
             lab.adversary(&case, &h, &format!("decouple-left:{n}"), &f);
+            // the right column decoupled the same way (no alias needed)
+            if high2.is_none() && la2 != lb {
+                let out2 = U320::from_scalar(&bitop(&la.to_scalar(), &la2.to_scalar(), nb, xor));
+                let mut f = Forge::new();
+                logic_chains(&h, p, &la, &la2, &out2, &mut f);
+                lab.adversary(&case, &h, &format!("decouple-right:{n}"), &f);
+            }
             // the same on the right input
             let ub_alias = ub.add(&r);
             if n == "alias-A+r" && ub_alias.lt(&U320::pow2(255)) {
@@ -165,6 +182,11 @@ pub fn run(tier: Tier, seed: u64) -> i32 {
     ev.floor("alias splits attempted", ev.bucket_get("alias_reachable"), 50);
     ev.floor("claim-output adversaries", ev.bucket_get("adversary.claim-output"), 500);
     ev.floor("decouple adversaries", ev.bucket_get("adversary.decouple-left"), 500);
+    ev.floor("right-column decouple adversaries", ev.bucket_get("adversary.decouple-right"), 500);
+    ev.floor("operand wirings", ev.set_len("wirings") as u64, 4);
+    ev.floor("cases with the same witness on both sides", ev.bucket_get("wiring.same-witness"), 100);
     ev.floor("end-to-end confirmations", ev.bucket_get("end_to_end"), tier.pick(40, 700));
+    ev.floor("near-miss assignments (one sub-identity on one row) refused by the real prover", ev.bucket_get("near_miss.end_to_end"), 60);
+    ev.floor("sub-identities covered by near misses", ev.set_len("near_miss_identities") as u64, 6);
     ev.finish()
 }
